@@ -42,7 +42,9 @@ ALPHABET = ["(", ")", "{", "}", "[", "]", ";", ",", ":", "=", "=>", "\"x\"", "\"
             "if", "else", "function", "case", "::", "\\", "#", "//", "execute", "run", "()", "{}", "with", "\n",
             "extends", "stringify", "default", "expand", "@zz", "true", "\"\\x\"", "'\\u12'",
             # strengthening round 1: operand / operator / statement-head tokens the positional parsers look for
-            "..", "matches", ":=", "+=", "!", "&&", "$", "-1", "1.5", "return", "while", "for", "switch", "new", "class", "$("]
+            "..", "matches", ":=", "+=", "!", "&&", "$", "-1", "1.5", "return", "while", "for", "switch", "new", "class", "$(",
+            # triage round 5: operator characters that were missing (`/` of paths and Hardcode.calc, `%`, a bare `@`)
+            "/", "%", "@"]
 STRING_ALPHABET = ['""', '"&<"', '"&<red"', '"&<$x,>"', '"$("', '"Hardcode.calc("']
 GROUP_ALPHABET = [";", "()", "{}", "[]", "x", "\"x\"", "1", "( )", "{ }"]
 BRACKETS = "()[]{}"
